@@ -360,6 +360,20 @@ def generated_models():
                 model('table-in%d-out%d-rule%d/%d' % (n_in, n_out, rule[0], rule[1]), body, ['d0'])
     body = gen_decision(0, [('i', 0)], '', table=gen_table(1, 1, []))
     model('table-no-rules', body, ['d0'])
+    # tables in which MANY rules match at once (the sorts behind PRIORITY and OUTPUT ORDER are library sorts that check their comparison function only
+    # on longer inputs: 21 and more elements), with outputs that are listed among the output values, listed twice, and not listed at all (seeded change
+    # C12_k: a comparison that is not a total order when an unlisted output meets listed ones made the sort panic)
+    for policy in ('PRIORITY', 'OUTPUT ORDER', 'RULE ORDER', 'COLLECT', 'ANY', 'UNIQUE', 'FIRST'):
+        for n_rules in (24, 48, 70):
+            for n_out in (1, 2):
+                t = '    <decisionTable hitPolicy="%s">\n      <input><inputExpression typeRef="number"><text>i0</text></inputExpression></input>\n' % policy
+                for k in range(n_out):
+                    t += '      <output name="o%d"><outputValues><text>"a", "b", "c"</text></outputValues></output>\n' % k
+                for q in range(n_rules):
+                    outs = ''.join('<outputEntry><text>%s</text></outputEntry>' % ['"a"', '"zz"', '"b"', '"c"', '"yy"', '"b"', 'null'][(q * (k + 1) + k) % 7] for k in range(n_out))
+                    t += '      <rule><inputEntry><text>%s</text></inputEntry>%s</rule>\n' % ('-' if q % 5 else '>= %d' % (q % 9), outs)
+                t += '    </decisionTable>\n'
+                model('table-many-matches-%s-%d-out%d' % (policy.replace(' ', ''), n_rules, n_out), gen_decision(0, [('i', 0)], '', table=t), ['d0'])
     # relations: 0..3 columns and rows of every width, the <column> and <row> children in every order (the schema wants columns first, the XML
     # parser takes them as they come): a row that is narrower or wider than the columns, columns behind rows (seeded change C12_i: rows were judged
     # against the columns read so far and indexed per column afterwards), as a decision's logic, a context entry and a knowledge-model body
